@@ -7,6 +7,7 @@ batching included.
 -/
 import DastardV.Props.C03
 import DastardV.Props.C01
+import DastardV.Props.C02
 namespace DastardV.Compose
 open Pipe
 
@@ -86,5 +87,81 @@ theorem abaco_blocks_never_crash (fpp : Nat) (L : List C03.GL) (f0 : Int) (hf0 :
   have h2 := C03.C03_groups_aligned fpp L f0 H gs perms hv hi hp s' outs hrun
   exact C01.C01_no_crash _ npre nsamp saved hlen zts hzt _ f0
     (opsOK_weave _ hw f0 (blocks_opsOK mk L _ f0 hf0 h2 h1))
+
+/-! ### no pulse lost, end to end -/
+
+/-- the segments pipeline channel `j` receives from the ingest blocks -/
+def chanSegs (j : Nat) (bs : List C03.Block) : List (List Nat) := bs.map fun b => b.data.flatten[j]?.getD []
+
+/-- ingest blocks with contiguous frame numbers are, for every pipeline channel, a run of blocks in the
+sense of the per-channel projection (`Pipe.BlocksFor`), provided the signedness flag handed over with the
+blocks is the same for all of them; `tp` lists the stamps the blocks carry -/
+theorem blocks_blocksFor (mk : C03.Block → Int × Int × List Bool) (j : Nat) (sg : Bool)
+    (hsg : ∀ b, ((mk b).2.2)[j]?.getD false = sg) (L : List C03.GL) (tp : Nat → Int × Int) :
+    ∀ (bs : List C03.Block) (n : Nat) (f : Int), C03.chkShape L bs = true → C03.chkFrames f bs = true →
+      j < (L.map (·.nchan)).sum →
+      (∀ (i : Nat) (b : C03.Block), bs[i]? = some b → tp (n + i) = ((mk b).1, (mk b).2.1)) →
+      BlocksFor j sg tp n f (bs.map (blockOp mk)) (chanSegs j bs)
+  | [], _, _, _, _, _, _ => rfl
+  | b :: bs, n, f, hs, hfr, hj, htp => by
+    simp only [C03.chkShape, List.all_cons, Bool.and_eq_true, beq_iff_eq, List.all_eq_true] at hs
+    obtain ⟨⟨hlen, hall⟩, hrest⟩ := hs
+    simp only [C03.chkFrames, Bool.and_eq_true, beq_iff_eq] at hfr
+    obtain ⟨hfirst, hfr'⟩ := hfr
+    have hjl : j < b.data.flatten.length := by rw [flatten_length_of_map hlen]; exact hj
+    have hd : b.data.flatten[j]? = some b.data.flatten[j] := List.getElem?_eq_getElem hjl
+    have hdl : (b.data.flatten[j]).length = b.nframes := by
+      obtain ⟨g, hg, hdg⟩ := List.mem_flatten.mp (List.getElem_mem hjl)
+      exact hall g hg _ hdg
+    refine ⟨(mk b).1, (mk b).2.1, b.data.flatten[j], chanSegs j bs, ?_, ?_, ?_, ?_⟩
+    · simp only [blockOp, blockOf, hsg b, hd, Option.getD_some, hfirst]
+    · have := htp 0 b (by simp)
+      simpa using this
+    · simp [chanSegs, hd]
+    · rw [hdl]
+      exact blocks_blocksFor mk j sg hsg L tp bs (n + 1) (f + b.nframes)
+        (by simp only [C03.chkShape, List.all_eq_true, Bool.and_eq_true, beq_iff_eq]; exact hrest) hfr' hj
+        (by
+          intro i b' hb'
+          have := htp (i + 1) b' (by simpa using hb')
+          rw [show n + 1 + i = n + (i + 1) by omega]
+          exact this)
+
+/-- **No pulse lost, end to end (Abaco).**  For every packet history the ingest theorems cover, every
+pipeline channel `j`, any trigger settings restored at `PrepareRun` (`saved`) and valid record lengths:
+on the stream channel `j` receives — the concatenation of its segments of the emitted blocks, which
+`C03_stream_exact` identifies with the gap-filled packet stream — the primary records the source
+publishes satisfy every clause of C02 (`C02_source_level`: edge and level completeness, the auto gap,
+soundness, edge-only non-overlap). -/
+theorem abaco_no_pulse_lost (fpp : Nat) (L : List C03.GL) (f0 : Int) (hf0 : -2305843009213693952 + nsamp ≤ f0)
+    (H : List (List (List C03.Pkt))) (gs : List C03.Group) (perms : List (List Nat))
+    (hv : C03.validIn fpp L H = true) (hi : C03.InitOK L gs) (hp : C03.PermsOK L.length H perms)
+    (s' : C03.St) (outs : List (Nat × C03.Block))
+    (hrun : C03.runFrom 0 (C03.startSt gs f0) H perms = .ok (s', outs))
+    (mk : C03.Block → Int × Int × List Bool) (j : Nat) (hj : j < (L.map (·.nchan)).sum) (sg : Bool)
+    (hsg : ∀ b, ((mk b).2.2)[j]?.getD false = sg)
+    (npre : Int) (hlen : 3 ≤ npre ∧ npre < nsamp) (saved : List (Nat × Trig.TS))
+    (zts : List (List (Int × Int))) (res : List Out)
+    (hres : runOps zts (prepare ((L.map (·.nchan)).sum) npre nsamp saved) ((outs.map (·.2)).map (blockOp mk)) = some res) :
+    ∃ (c : Trig.Chan) (parts : List (List Trig.Rec × List Trig.Rec)),
+      (prepare ((L.map (·.nchan)).sum) npre nsamp saved).chans[j]? = some c ∧ OutsFor j res parts ∧
+      let prims := ((parts.map (·.1)).flatten).map (·.frame)
+      let S := (chanSegs j (outs.map (·.2))).flatten
+      (c.ts.edge = true → ∀ p : Int, npre ≤ p → p + (nsamp - npre) < (S.length : Int) →
+        Trig.edgeAtG (Trig.cfgChan c.ts sg) S p = true → Trig.Cov nsamp f0 prims p) ∧
+      (c.ts.level = true → ∀ p : Int, npre ≤ p → p + (nsamp - npre) < (S.length : Int) →
+        Trig.levelAtG (Trig.cfgChan c.ts sg) S p = true → Trig.Near nsamp f0 prims p) ∧
+      (∀ T ∈ prims, Trig.SoundAt c.ts sg S f0 T) := by
+  have h1 := (C03.C03_frames_contiguous fpp L f0 H gs perms hv hi hp s' outs hrun).1
+  have h2 := C03.C03_groups_aligned fpp L f0 H gs perms hv hi hp s' outs hrun
+  have hjn : j < (prepare ((L.map (·.nchan)).sum) npre nsamp saved).chans.length := by simp [prepare]; exact hj
+  obtain ⟨c, hc⟩ : ∃ c, (prepare ((L.map (·.nchan)).sum) npre nsamp saved).chans[j]? = some c :=
+    ⟨_, List.getElem?_eq_getElem hjn⟩
+  obtain ⟨hfresh, hem⟩ := C02.prepare_fresh (f0 := f0) hc hf0
+  have hb := blocks_blocksFor mk j sg hsg L
+    (fun m => match (outs.map (·.2))[m]? with | some b => ((mk b).1, (mk b).2.1) | none => (0, 0))
+    (outs.map (·.2)) 0 f0 h2 h1 hj (by intro i b hb; simp [hb])
+  obtain ⟨parts, hof, he, hl, _, _, hs⟩ := C02.C02_source_level hb hc hres hlen hem hfresh
+  exact ⟨c, parts, hc, hof, he, hl, hs⟩
 
 end DastardV.Compose
